@@ -1027,6 +1027,8 @@ class XsdGroup(XsdComponent, MutableSequence[ModelParticleType],
                     self.check_dynamic_context(child, xsd_element, model.element, namespaces)
                 except (XMLSchemaValidationError, TypeError) as err:
                     context.validation_error(validation, self, err, obj)
+                except KeyError:
+                    pass  # unknown xsi:type, the error is reported by the child
 
                 for particle, occurs, expected in model.advance(True):
                     errors.append((index, particle, occurs, expected))
